@@ -62,9 +62,41 @@ func c19ParamIdx(fi *FuncInfo, o types.Object) int {
 	return -1
 }
 
-// isSuccessReturn: the first result is not the nil literal (error returns give nil states).
-func (m *c19Model) isSuccessReturn(ret *ast.ReturnStmt) bool {
-	return len(ret.Results) > 0 && !m.info.Types[ret.Results[0]].IsNil()
+// okResults returns the result expressions of a success return of fi, nil for an error return. An explicit return
+// is an error return when its first result is the nil literal (error returns give no state). A bare `return` of a
+// function with named results returns the result variables; it is an error return when the branch conditions
+// establish that the error result is not nil.
+func (m *c19Model) okResults(fi *FuncInfo, ret *ast.ReturnStmt) []ast.Expr {
+	if len(ret.Results) > 0 {
+		if m.info.Types[ret.Results[0]].IsNil() {
+			return nil
+		}
+		return ret.Results
+	}
+	ft := fi.Decl.Type
+	if ft.Results == nil {
+		return nil
+	}
+	var out []ast.Expr
+	var errVar types.Object
+	for _, fld := range ft.Results.List {
+		for _, nm := range fld.Names {
+			out = append(out, nm)
+			if o := m.info.Defs[nm]; o != nil && c19IsError(o.Type()) {
+				errVar = o
+			}
+		}
+	}
+	if len(out) == 0 {
+		return nil
+	}
+	if errVar != nil {
+		g := m.graph(fi)
+		if knownNonNil(factsAtPos(m.info, g.g, g.dom, ret.Pos()), func(e ast.Expr) bool { return objOf(m.info, e) == errVar }) != nil {
+			return nil
+		}
+	}
+	return out
 }
 
 // searchRoles finds every binary-search loop reachable from the lookups and the roles around it.
@@ -78,7 +110,10 @@ func (m *c19Model) searchRoles(parents func(*FuncInfo) map[ast.Node]ast.Node) []
 				continue
 			}
 			lo, hi, _ := m.bounds(fi, c19LoopStayFacts(outer))
-			if lo == nil || len(m.fetchesIn(outer.Body)) != 1 {
+			if lo == nil {
+				continue
+			}
+			if p, _ := m.probeOf(&c19Frame{fi: fi}, outer); p == nil {
 				continue
 			}
 			s := &c19Search{fiB: fi, outer: outer, lo: lo, hi: hi, caller: fi, loVar: lo, hiVar: hi, rLo: -1, rHi: -1}
@@ -120,12 +155,18 @@ func (m *c19Model) searchRoles(parents func(*FuncInfo) map[ast.Node]ast.Node) []
 				if g == nil || g == fi {
 					return true
 				}
+				// the results reach the bound variables directly or through plain copies (`lo, up, err := f(…); lower, upper = lo, up`)
 				iLo, iHi := -1, -1
 				for i, lhs := range as.Lhs {
-					switch objOf(info, lhs) {
-					case s.loVar:
+					x := objOf(info, lhs)
+					if x == nil {
+						continue
+					}
+					cp := c19Copies(info, s.caller.Decl.Body, map[types.Object]bool{x: true})
+					switch {
+					case cp[s.loVar] && !cp[s.hiVar]:
 						iLo = i
-					case s.hiVar:
+					case cp[s.hiVar] && !cp[s.loVar]:
 						iHi = i
 					}
 				}
@@ -175,8 +216,10 @@ func (m *c19Model) finderRoles(s *c19Search, par map[ast.Node]ast.Node) {
 		if _, ok := n.(*ast.FuncLit); ok {
 			return false
 		}
-		if ret, ok := n.(*ast.ReturnStmt); ok && m.isSuccessReturn(ret) && s.rHi < len(ret.Results) {
-			o := objOf(info, ret.Results[s.rHi])
+		if ret, ok := n.(*ast.ReturnStmt); !ok {
+			return true
+		} else if res := m.okResults(g, ret); s.rHi < len(res) {
+			o := objOf(info, res[s.rHi])
 			if o != nil && o == probed {
 				return true // the probed state itself handed back as upper bound (an answer exit)
 			}
